@@ -6,6 +6,7 @@ C20  TZ value resolution follows tzset(3): file first, directory order, colon pr
 -/
 import TzVerif.Model.TzFile
 import TzVerif.Proofs.SrcEqTzString
+import TzVerif.Proofs.SrcEqSettings
 
 namespace TzVerif.C20
 open TzVerif.Model
@@ -186,5 +187,89 @@ example :
 theorem translated_parser_is_the_model (s : TzVerif.Model.Bytes) (ext : Bool) :
     Src.parse_posix_tz s ext = TzVerif.Model.parsePosixTz s ext :=
   TzVerif.Proofs.SrcEq.parse_posix_tz_eq s ext
+
+/-! ### The same about the source text
+`TimeZoneSettings::{read_tz_file, parse_posix_tz, parse_local}` (src/timezone/mod.rs) are translated to Lean on every
+run (tools/rs2lean.py, DESIGN §13; `#[cfg(unix)]` statements as the compilation target has them). The calls of the
+injected `read_file_fn` are effects: the translation threads the log of requested paths through every exit. With the
+virtual file system read off the injected function (`fsOf`), result and log are exactly `resolveTz`'s two components,
+for every settings value, every log so far and every TZ value that is a `&str` (well-formed UTF-8). -/
+
+open TzVerif.Proofs.SrcEq in
+theorem translated_source_is_the_model :
+    (∀ (s : Src.TimeZoneSettings) (tz io : _), validUtf8 tz = true →
+      Src.TimeZoneSettings.parse_posix_tz s tz io =
+        ((resolveTz s.directories (fsOf s) tz).2, io ++ (resolveTz s.directories (fsOf s) tz).1)) ∧
+    (∀ (s : Src.TimeZoneSettings) (tz io : _),
+      Src.TimeZoneSettings.read_tz_file s tz io =
+        (ioResult (readTzFile s.directories (fsOf s) tz).2, io ++ (readTzFile s.directories (fsOf s) tz).1)) ∧
+    (∀ (s : Src.TimeZoneSettings) (io : _),
+      Src.TimeZoneSettings.parse_local s io =
+        ((resolveTz s.directories (fsOf s) localtimeBytes).2, io ++ (resolveTz s.directories (fsOf s) localtimeBytes).1)) :=
+  ⟨fun s tz io h => settings_parse_posix_tz_eq s tz io h, read_tz_file_eq, parse_local_eq⟩
+
+open TzVerif.Proofs.SrcEq in
+/-- `only_candidates` about the source: starting from an empty log, every path the translated `parse_posix_tz` hands
+    to the injected function is /etc/localtime (only for the literal `localtime`), the absolute value itself, or
+    `dir/name` for a configured directory -/
+theorem only_candidates_src (s : Src.TimeZoneSettings) (tz p : Bytes) (h : validUtf8 tz = true)
+    (hp : p ∈ (Src.TimeZoneSettings.parse_posix_tz s tz []).2) :
+    (tz = localtimeBytes ∧ p = etcLocaltimeBytes) ∨
+    (let name := if tz.head? = some 58 then tz.tail else tz
+     (name.head? = some 47 ∧ p = name) ∨ (name.head? ≠ some 47 ∧ p ∈ candidates s.directories name)) := by
+  rw [settings_parse_posix_tz_eq s tz [] h] at hp
+  simp only [List.nil_append] at hp
+  exact only_candidates s.directories (fsOf s) tz p hp
+
+open TzVerif.Proofs.SrcEq in
+/-- the log only grows: what was requested before a call is still there, in order, before what the call requests -/
+theorem log_is_appended_src (s : Src.TimeZoneSettings) (tz io : _) (h : validUtf8 tz = true) :
+    (Src.TimeZoneSettings.parse_posix_tz s tz io).2 = io ++ (Src.TimeZoneSettings.parse_posix_tz s tz []).2 := by
+  rw [settings_parse_posix_tz_eq s tz io h, settings_parse_posix_tz_eq s tz [] h]; simp
+
+open TzVerif.Proofs.SrcEq in
+/-- the four value shapes, about the source (empty log): refusal of the empty value, `localtime`, ':' without
+    fallback, and file-then-description -/
+theorem value_shapes_src (s : Src.TimeZoneSettings) :
+    Src.TimeZoneSettings.parse_posix_tz s [] [] = (.error (.tz (.tzString .empty)), []) ∧
+    Src.TimeZoneSettings.parse_posix_tz s localtimeBytes [] =
+      ((match fsOf s etcLocaltimeBytes with
+        | none => .error .io
+        | some b => liftTz (parseTzFile b)), [etcLocaltimeBytes]) ∧
+    (∀ rest, validUtf8 rest = true →
+      Src.TimeZoneSettings.parse_posix_tz s (58 :: rest) [] =
+        ((match (readTzFile s.directories (fsOf s) rest).2 with
+          | none => .error .io
+          | some b => liftTz (parseTzFile b)), (readTzFile s.directories (fsOf s) rest).1)) ∧
+    (∀ tz, validUtf8 tz = true → tz ≠ [] → tz ≠ localtimeBytes → tz.head? ≠ some 58 →
+      Src.TimeZoneSettings.parse_posix_tz s tz [] =
+        ((match (readTzFile s.directories (fsOf s) tz).2 with
+          | some b => liftTz (parseTzFile b)
+          | none =>
+            match parsePosixTz (trimAsciiWhitespace tz) false with
+            | .error e => .error (.tz e)
+            | .ok rule =>
+              liftTz (TimeZone.new [] (match rule with | .fixed t => [t] | .alternate a => [a.std, a.dst]) [] (some rule))),
+         (readTzFile s.directories (fsOf s) tz).1)) := by
+  refine ⟨?_, ?_, ?_, ?_⟩
+  · rw [settings_parse_posix_tz_eq s [] [] (by decide), empty_refused]; rfl
+  · rw [settings_parse_posix_tz_eq s localtimeBytes [] (by decide), localtime_value]; rfl
+  · intro rest hv
+    have hv' : validUtf8 (58 :: rest) = true := by
+      unfold validUtf8; simpa using hv
+    rw [settings_parse_posix_tz_eq s (58 :: rest) [] hv', colon_value]; rfl
+  · intro tz hv h0 h1 h2
+    rw [settings_parse_posix_tz_eq s tz [] hv, plain_value s.directories (fsOf s) tz h0 h1 h2]; rfl
+
+/-- non-vacuity, on the translated source: directories /a, /b, only /b/Z readable (garbage): `Z` requests /a/Z then
+    /b/Z and the decoding error is final -/
+example :
+    let s : Src.TimeZoneSettings :=
+      { directories := [[47, 97], [47, 98]], readFileFn := fun p => if p = [47, 98, 47, 90] then .ok [1, 2, 3] else .error () }
+    Src.TimeZoneSettings.parse_posix_tz s [90] [] =
+      (.error (.tz (.tzFile (.parseData .unexpectedEof))), [[47, 97, 47, 90], [47, 98, 47, 90]]) := by
+  intro s
+  rw [TzVerif.Proofs.SrcEq.settings_parse_posix_tz_eq s [90] [] (by decide)]
+  decide
 
 end TzVerif.C20
